@@ -3,6 +3,7 @@
    index-arithmetic part of the property: for ALL integers start, stop, idx the
    window the SQL computes is the Redis slice of the sequence. *)
 From Redka Require Import Base Db Ops Spec Abs Inv Refine ImplList ProofRange ProofRefineList.
+From Redka Require ProofFloat.
 
 (* the LIMIT window of sqlRange / sqlTrim is the Redis slice: negative indexes
    count from the tail, out-of-range bounds are clamped, inverted or empty
@@ -32,56 +33,50 @@ Theorem C02_index_from_tail : forall (A : Type) (l : list A) (idx : Z),
 Proof. exact norm_index_nth. Qed.
 
 (* ---- the sequence behaviour of the list operations (ProofRefineList.v) ----
-   Elements are ordered by a binary64 position; a push takes max+1 / min-1.  The
-   order proofs use the following IEEE-754 order facts about Coq's primitive
-   floats as PREMISES (they are not proved here; see DESIGN.md section 6). *)
-Section FloatFacts.
-  Hypothesis fle_refl : forall x, (x =? x)%float = true -> (x <=? x)%float = true.
-  Hypothesis fle_trans : forall x y z, (x <=? y)%float = true -> (y <=? z)%float = true -> (x <=? z)%float = true.
-  Hypothesis fle_total : forall x y, (x =? x)%float = true -> (y =? y)%float = true -> (x <=? y)%float = true \/ (y <=? x)%float = true.
-  Hypothesis flt_le : forall x y, (x <? y)%float = true <-> ((x <=? y)%float = true /\ (y <=? x)%float = false).
-  Hypothesis feq_le : forall x y, (x =? y)%float = true <-> ((x <=? y)%float = true /\ (y <=? x)%float = true).
-  Hypothesis fle_num : forall x y, (x <=? y)%float = true -> (x =? x)%float = true /\ (y =? y)%float = true.
-  Hypothesis fadd1_ge : forall x, (x =? x)%float = true -> (x <=? x + 1)%float = true.
-  Hypothesis fsub1_le : forall x, (x =? x)%float = true -> (x - 1 <=? x)%float = true.
-  Hypothesis fzero_num : (zero =? zero)%float = true.
+   Elements are ordered by a binary64 position; a push takes max+1 / min-1.  The order
+   proofs rest on nine IEEE-754 order facts about Coq's primitive floats, which are theorems of
+   ProofFloat.v (from Coq.Floats.FloatAxioms - the standard library's specification of the
+   primitive operations - and Flocq's rounding theory, hence the Reals axioms under
+   Print Assumptions; see DESIGN.md section 6). *)
+Ltac ff := first [ exact ProofFloat.fle_refl | exact ProofFloat.fle_trans | exact ProofFloat.fle_total
+  | exact ProofFloat.flt_le | exact ProofFloat.feq_le | exact ProofFloat.fle_num | exact ProofFloat.fadd1_ge
+  | exact ProofFloat.fsub1_le | exact ProofFloat.fzero_num ].
 
-  (* pushing at the back appends to the sequence and returns its new length *)
-  Theorem C02_push_back_appends : forall now key v d d' n k b,
-    Inv d -> live_key now d key T_LIST = Some k -> to_bytes v = Some (Some b) ->
-    list_push now key v false d = (d', Ok n) ->
-    seq_of d' (k_id k) = seq_of d (k_id k) ++ [b] /\ n = zlen (seq_of d' (k_id k)).
-  Proof. intros; eapply push_back_appends; eauto. Qed.
-  Theorem C02_push_front_prepends : forall now key v d d' n k b,
-    Inv d -> live_key now d key T_LIST = Some k -> to_bytes v = Some (Some b) ->
-    list_push now key v true d = (d', Ok n) ->
-    seq_of d' (k_id k) = b :: seq_of d (k_id k) /\ n = zlen (seq_of d' (k_id k)).
-  Proof. intros; eapply push_front_prepends; eauto. Qed.
-  (* popping removes exactly the last / first element *)
-  Theorem C02_pop_back_removes_last : forall now key d d' e k,
-    Inv d -> live_key now d key T_LIST = Some k -> list_pop now key true d = (d', Ok e) ->
-    seq_of d (k_id k) = seq_of d' (k_id k) ++ [e].
-  Proof. intros; eapply pop_back_removes_last; eauto. Qed.
-  Theorem C02_pop_front_removes_first : forall now key d d' e k,
-    Inv d -> live_key now d key T_LIST = Some k -> list_pop now key false d = (d', Ok e) ->
-    seq_of d (k_id k) = e :: seq_of d' (k_id k).
-  Proof. intros; eapply pop_front_removes_first; eauto. Qed.
+(* pushing at the back appends to the sequence and returns its new length *)
+Theorem C02_push_back_appends : forall now key v d d' n k b,
+  Inv d -> live_key now d key T_LIST = Some k -> to_bytes v = Some (Some b) ->
+  list_push now key v false d = (d', Ok n) ->
+  seq_of d' (k_id k) = seq_of d (k_id k) ++ [b] /\ n = zlen (seq_of d' (k_id k)).
+Proof. intros; eapply push_back_appends; try ff; eauto. Qed.
+Theorem C02_push_front_prepends : forall now key v d d' n k b,
+  Inv d -> live_key now d key T_LIST = Some k -> to_bytes v = Some (Some b) ->
+  list_push now key v true d = (d', Ok n) ->
+  seq_of d' (k_id k) = b :: seq_of d (k_id k) /\ n = zlen (seq_of d' (k_id k)).
+Proof. intros; eapply push_front_prepends; try ff; eauto. Qed.
+(* popping removes exactly the last / first element *)
+Theorem C02_pop_back_removes_last : forall now key d d' e k,
+  Inv d -> live_key now d key T_LIST = Some k -> list_pop now key true d = (d', Ok e) ->
+  seq_of d (k_id k) = seq_of d' (k_id k) ++ [e].
+Proof. intros; eapply pop_back_removes_last; try ff; eauto. Qed.
+Theorem C02_pop_front_removes_first : forall now key d d' e k,
+  Inv d -> live_key now d key T_LIST = Some k -> list_pop now key false d = (d', Ok e) ->
+  seq_of d (k_id k) = e :: seq_of d' (k_id k).
+Proof. intros; eapply pop_front_removes_first; try ff; eauto. Qed.
 
-  (* every list operation other than the pivot inserts refines the abstract
-     sequence: push and pop at both ends, pop-and-push between lists (also with
-     source = destination), set by index, remove occurrences from front, back or
-     all, trim, range, index, length.  For the three pushing operations the
-     premise push_free says that max+1 (min-1) was a new position, i.e. the push
-     did not fail on the UNIQUE (kid, pos) index (it does once a position
-     reaches 2^53, where x+1 = x: see the refutation below). *)
-  Theorem C02_every_list_operation_refines : forall now o d s,
-    list_op o = true -> wf_lop o -> Inv d -> R now d s ->
-    (is_push o = true -> push_free now o d) -> step_refines now o d s.
-  Proof. intros; eapply C02_list_step_refines_partial; eauto. Qed.
-  Theorem C02_operations_that_do_not_push_refine : forall now o d s,
-    list_op o = true -> is_push o = false -> wf_lop o -> Inv d -> R now d s -> step_refines now o d s.
-  Proof. intros; eapply C02_list_step_refines_nopush; eauto. Qed.
-End FloatFacts.
+(* every list operation other than the pivot inserts refines the abstract
+   sequence: push and pop at both ends, pop-and-push between lists (also with
+   source = destination), set by index, remove occurrences from front, back or
+   all, trim, range, index, length.  For the three pushing operations the
+   premise push_free says that max+1 (min-1) was a new position, i.e. the push
+   did not fail on the UNIQUE (kid, pos) index (it does once a position
+   reaches 2^53, where x+1 = x: see the refutation below). *)
+Theorem C02_every_list_operation_refines : forall now o d s,
+  list_op o = true -> wf_lop o -> Inv d -> R now d s ->
+  (is_push o = true -> push_free now o d) -> step_refines now o d s.
+Proof. intros; eapply C02_list_step_refines_partial; try ff; eauto. Qed.
+Theorem C02_operations_that_do_not_push_refine : forall now o d s,
+  list_op o = true -> is_push o = false -> wf_lop o -> Inv d -> R now d s -> step_refines now o d s.
+Proof. intros; eapply C02_list_step_refines_nopush; try ff; eauto. Qed.
 
 (* without the premise the statement is false of the model: a list whose last
    position is 2^53 refuses the next push (position collision, nothing changes) *)
@@ -99,3 +94,5 @@ Print Assumptions C02_pop_back_removes_last.
 Print Assumptions C02_every_list_operation_refines.
 Print Assumptions C02_operations_that_do_not_push_refine.
 Print Assumptions C02_push_refuted_at_2_pow_53.
+Print Assumptions C02_push_front_prepends.
+Print Assumptions C02_pop_front_removes_first.
